@@ -99,3 +99,36 @@ package slice
 //@   loop 1: invariant elems: forall k int :: {out[k]} 0 <= k && k < len(out) ==> 0 <= src[k] && src[k] < it1 && i < len(vs[src[k]]) && out[k] == vs[src[k]][i]
 //@   loop 1: invariant order: forall a int, b int :: 0 <= a && a < b && b < len(out) ==> src[a] < src[b]
 //@   loop 1: invariant complete: forall j int :: 0 <= j && j < it1 && i < len(vs[j]) ==> exists k int :: 0 <= k && k < len(out) && src[k] == j
+//@
+//@ func Partition
+//@   role keep pred
+//@   ghostret src imap[int], dst imap[int]
+//@   ensures [C17] empty: len(vs) == 0 ==> result == vs
+//@   ensures [C17] shape: len(vs) > 0 ==> result.base == vs.base && result.off == vs.off && cap(result) == len(result) && len(result) <= len(vs)
+//@   ensures [C17] kept: forall k int :: {result[k]} 0 <= k && k < len(result) ==> 0 <= src[k] && src[k] < len(vs) && result[k] == oldelem(vs, src[k]) && holds(keep, result[k])
+//@   ensures [C17] stable: forall a int, b int :: {src[a], src[b]} 0 <= a && a < b && b < len(result) ==> src[a] < src[b]
+//@   ensures [C17] complete: forall t int :: {dst[t]} 0 <= t && t < len(vs) && holds(keep, old(vs[t])) ==> 0 <= dst[t] && dst[t] < len(result) && src[dst[t]] == t
+//@   ensures [C17] bag: bag(vs) == old(bag(vs))
+//@   ensures [C17] outside: unchanged_outside(vs)
+//@   modifies elems(vs)
+//@   at loop 1 end: ghost src[i - 1] = i - 1
+//@   at loop 1 end: ghost dst[i - 1] = i - 1
+//@   loop 1: invariant idx: 0 <= i && i <= len(vs)
+//@   loop 1: invariant kept: forall k int :: {vs[k]} 0 <= k && k < i ==> holds(keep, vs[k]) && src[k] == k && dst[k] == k
+//@   loop 1: decreases len(vs) - i
+//@   at after "vs[i], vs[j] = vs[j], vs[i]": ghost src[i] = j
+//@   at after "vs[i], vs[j] = vs[j], vs[i]": ghost dst[j] = i
+//@   loop 2: invariant idx: 0 <= i && i < j && j <= len(vs) + 1 && (i < len(vs) ==> j <= len(vs)) && i <= len(vs)
+//@   loop 2: invariant front: forall k int :: {vs[k]} 0 <= k && k < i ==> 0 <= src[k] && src[k] < j && src[k] < len(vs) && vs[k] == oldelem(vs, src[k]) && holds(keep, vs[k])
+//@   loop 2: invariant stable: forall a int, b int :: {src[a], src[b]} 0 <= a && a < b && b < i ==> src[a] < src[b]
+//@   loop 2: invariant dropped: forall k int :: {vs[k]} i <= k && k < j && k < len(vs) ==> !holds(keep, vs[k])
+//@   loop 2: invariant untouched: forall k int :: {vs[k]} j <= k && k < len(vs) ==> vs[k] == old(vs[k])
+//@   loop 2: invariant complete: forall t int :: {dst[t]} 0 <= t && t < j && t < len(vs) && holds(keep, old(vs[t])) ==> 0 <= dst[t] && dst[t] < i && src[dst[t]] == t
+//@   loop 2: invariant bag: bag(vs) == old(bag(vs))
+//@   loop 2: invariant outside: unchanged_outside(vs)
+//@   loop 2: decreases len(vs) - i
+//@   loop 3: invariant idx: i < j && j <= len(vs)
+//@   loop 3: invariant front: forall k int :: {vs[k]} 0 <= k && k < i ==> src[k] < j
+//@   loop 3: invariant dropped: forall k int :: {vs[k]} i <= k && k < j && k < len(vs) ==> !holds(keep, vs[k])
+//@   loop 3: invariant complete: forall t int :: {dst[t]} 0 <= t && t < j && t < len(vs) && holds(keep, old(vs[t])) ==> 0 <= dst[t] && dst[t] < i && src[dst[t]] == t
+//@   loop 3: decreases len(vs) - j
